@@ -284,6 +284,9 @@ fn solver_level(rep: &Reporter, prop: &str) -> (crate::bnb::Agg, Vec<Value>, boo
             mk("KP-4", variants_kp(), true, None),
             mk("KP-5", variants_kp(), true, Some(if th { 413_343 } else { 60_000 })),
             mk("KPB-6", variants_kp(), true, None),
+            mk("KPH-0", variants_kp(), false, None),
+            mk("KPH-1", variants_kp(), false, None),
+            mk("KPH-2", variants_kp(), false, None),
             // set packing with a CONTENT DEPENDENT variable order and the superset dominance rule (as a user of the misp example who adds
             // a rule): entries recorded for nodes which are never developed are not derived again under another order (D13 family)
             mk("SP-3", variants_sp_dom(), false, None),
